@@ -129,7 +129,8 @@ class C13(Check):
                 kw.update({'vectorize': False, 'float_precision': 'float64', 'backend': 'fortran',
                            'clear': rng.random() < 0.7})
             if stratum in ('S-file', 'S-all') and rng.random() < 0.7:
-                kw['file_name'] = 'shared_fn'
+                # same file name in the same directory, or the same base name in different directories
+                kw['file_name'] = rng.choice(['shared_fn', 'shared_fn', f'dir{wid}/model', f'dir{wid % 2}/model'])
             elif rng.random() < 0.3:
                 kw['file_name'] = f'wf{wid}'
             if kind == 'run':
@@ -146,6 +147,8 @@ class C13(Check):
                 kw['step_size'] = rng.choice([1e-3, 1e-3, 2e-3, 0.01])
                 ops.append({'wf': wid, 'op': 'compile', 'obj': M, 'api': api, 'kw': kw, 'handle': h,
                             'func_name': rng.choice(['vf', 'vf', f'f{wid}'])})
+                if kind != 'jac' and rng.random() < 0.2:
+                    ops[-1]['decorator'] = rng.choice(['neg', 'half', 'id'])    # user decorator around the generated RHS
                 if rng.random() < 0.6:
                     ops.append({'wf': wid, 'op': 'probe', 'handle': h})
             if stratum != 'S-fortran' and rng.random() < 0.25 and net.inst:
